@@ -9,6 +9,7 @@ package c18
 //      a child process so that an uncontained panic is seen as a dead process (direct.json).
 
 import (
+	pkgutil "github.com/smartcontractkit/chainlink-automation/pkg/util"
 	"context"
 	"encoding/json"
 	"fmt"
@@ -783,6 +784,21 @@ func TestC18(t *testing.T) {
 			violations = append(violations, o)
 		}
 	}
+	// part D: the cache collector (pkg/util.Cache.Start), the one background goroutine every cache-owning service
+	// (runner, coordinator) starts with `go` and stops from its own Close: Stop at every moment of the collector's
+	// life - before the goroutine has run at all, after a few yields, while it is parked, exactly at a collection
+	// tick, long after.  The goroutine must be gone afterwards.
+	for _, cc := range cacheStopCases() {
+		left := runCacheStop(t, cc)
+		evals++
+		keys = append(keys, "cache-collector/"+cc.Name)
+		if len(left) > 0 {
+			dist["cache-collector: violation"]++
+			violations = append(violations, map[string]any{"name": "cache-collector/" + cc.Name, "verdict": "violation: the collector goroutine of a stopped cache is still running", "left": left})
+		} else {
+			dist["cache-collector: ok"]++
+		}
+	}
 	if violations == nil {
 		violations = []any{}
 	}
@@ -790,4 +806,52 @@ func TestC18(t *testing.T) {
 		"evaluations": evals, "nontrivial_keys": keys, "violations": violations, "known": known,
 		"samples": samples, "distribution": dist,
 	})
+}
+
+
+// ---------------------------------------------------------------- part D: cache collector life cycle
+
+type cacheStopCase struct {
+	Name   string
+	Yields int
+	Wait   bool
+	Sleep  time.Duration
+	OneP   bool
+}
+
+func cacheStopCases() []cacheStopCase {
+	cs := []cacheStopCase{{Name: "before-the-goroutine-ran-1P", OneP: true}, {Name: "immediately"}, {Name: "after-1-yield", Yields: 1},
+		{Name: "after-5-yields", Yields: 5}, {Name: "parked", Wait: true}}
+	for _, ms := range []int{999, 1000, 1001, 3000, 30000} {
+		cs = append(cs, cacheStopCase{Name: fmt.Sprintf("at-%dms-of-1s-ticks", ms), Wait: true, Sleep: time.Duration(ms) * time.Millisecond})
+	}
+	return cs
+}
+
+func runCacheStop(t *testing.T, c cacheStopCase) (left []string) {
+	if c.OneP {
+		defer runtime.GOMAXPROCS(runtime.GOMAXPROCS(1))
+	}
+	bubble(t, func(t *testing.T) {
+		ch := pkgutil.NewCache[int](time.Minute)
+		for i := 0; i < 50; i++ {
+			ch.Set(fmt.Sprint(i), i, time.Duration(i+1)*100*time.Millisecond)
+		}
+		go ch.Start(time.Second)
+		for i := 0; i < c.Yields; i++ {
+			runtime.Gosched()
+		}
+		if c.Wait {
+			synctest.Wait()
+		}
+		if c.Sleep > 0 {
+			time.Sleep(c.Sleep)
+		}
+		ch.Stop()
+		synctest.Wait()
+		time.Sleep(time.Minute)
+		synctest.Wait()
+		left = repoGoroutines()
+	})
+	return left
 }
